@@ -415,6 +415,77 @@ func checkSignValidate(c *Ctx, tto *ssa.Function) {
 		c.Check("C06-R4", "standard-verify-flags", call.Pos(), ok, "the script engine is not created with txscript.StandardVerifyFlags")
 	}
 	checkPrevOutPerInput(c, "C06-R4")
+	checkWatchOnlyAnswerFromKeyMaterial(c, "C06-R4")
+	checkExplicitInputsPassEligibility(c, "C06-R3")
+}
+
+// checkExplicitInputsPassEligibility: "explicitly selected inputs that are not eligible are refused": wherever the wallet
+// funds a transaction from a caller-given list of outpoints (the constant input source), the list has first been matched
+// against the eligible set — every path to building that source passes findEligibleOutputs (the matching itself is the
+// selected-outpoint-must-be-eligible rule above).
+func checkExplicitInputsPassEligibility(c *Ctx, rule string) {
+	p := c.P
+	cis := p.Func("wallet", "", "constantInputSource")
+	fe := p.Func("wallet", "Wallet", "findEligibleOutputs")
+	if cis == nil || fe == nil {
+		c.Unresolved(rule, "wallet.constantInputSource / Wallet.findEligibleOutputs")
+		return
+	}
+	n := 0
+	for _, cs := range p.realCallers(cis) {
+		call, ok := cs.(*ssa.Call)
+		if !ok {
+			continue
+		}
+		n++
+		fn := call.Parent()
+		q := &PathQuery{Fn: fn, Barrier: p.reachingCall(fe)}
+		q.Target = func(ins ssa.Instruction, _ *ssa.BasicBlock) bool { return ins == ssa.Instruction(call) }
+		okE := len(q.From(nil)) == 0
+		c.Check(rule, "explicit-inputs-pass-eligibility:"+outermost(fn).Name(), call.Pos(), okE,
+			outermost(fn).Name()+" funds a transaction from caller-given outpoints without matching them against the eligible set (minconf, maturity, account/scope, user locks, leases, unconfirmed spends): ineligible explicit inputs are accepted")
+	}
+	c.Floor(rule, "constant input sources built from explicit inputs", n, 2)
+}
+
+// checkWatchOnlyAnswerFromKeyMaterial: txToOutputs skips signing and validation when Manager.IsWatchOnlyAccount says the
+// spending account is watch-only. "Every input of a non-watch-only result carries a signature" therefore needs that
+// answer to be true only where there really are no private keys: on the manager-wide WatchOnly() fact, or on what the
+// scoped manager finds in the account's own row. A constant "true" keyed by the account NUMBER is not such a fact.
+func checkWatchOnlyAnswerFromKeyMaterial(c *Ctx, rule string) {
+	p := c.P
+	fn := p.Func("waddrmgr", "Manager", "IsWatchOnlyAccount")
+	if fn == nil {
+		c.Unresolved(rule, "Manager.IsWatchOnlyAccount")
+		return
+	}
+	n := 0
+	for _, b := range fn.Blocks {
+		r, ok := b.Instrs[len(b.Instrs)-1].(*ssa.Return)
+		if !ok || len(r.Results) == 0 {
+			continue
+		}
+		for _, via := range append([]*ssa.BasicBlock{nil}, b.Preds...) {
+			v := resolvePhi(effectiveResult(r, 0), b, via)
+			cb, isC := constBool(v)
+			if !isC || !cb {
+				continue
+			}
+			n++
+			unguarded := reachableAvoiding(fn, nil, r, func(from *ssa.BasicBlock, si int) bool {
+				f := edgeFactOf(from, si)
+				return f != nil && f.Kind == "true" && isResultOfCall(f.V, "WatchOnly", -1)
+			})
+			construct := "watch-only-answer-from-key-material:when-manager-is-watch-only"
+			if unguarded {
+				construct = "watch-only-answer-from-key-material:constant-answer"
+			}
+			c.Check(rule, construct, r.Pos(), !unguarded,
+				"Manager.IsWatchOnlyAccount answers 'watch-only' on a path that has established neither that the manager is watch-only nor what the account's row holds (a constant answer, e.g. for the imported-addresses account): txToOutputs then returns a spend from that account unsigned and unvalidated although the wallet holds the private key")
+			break
+		}
+	}
+	c.Floor(rule, "constant 'watch-only' answers of Manager.IsWatchOnlyAccount", n, 1)
 }
 
 // checkPrevOutPerInput: the previous-output fetcher handed to the signer and to the validation engine RETAINS the
